@@ -210,7 +210,9 @@ struct Live {
 pub fn run_case(id: &str, toks: &[&str]) -> String {
     let t0: i64 = toks[0].parse().unwrap();
     let _off: i64 = toks[1].parse().unwrap(); // the zone offset is a property of the process (TZ)
-    assert_eq!(toks[2], ";");
+    // annotations between <off> and ';' are for the oracles only
+    let semi = toks.iter().position(|t| *t == ";").expect("';' missing in case");
+    let ops = &toks[semi + 1..];
     let dir: PathBuf = scratch_root().join(format!("c_{id}"));
     let link: PathBuf = scratch_root().join(format!("c_{id}.link"));
     let _ = std::fs::remove_dir_all(&dir);
@@ -228,7 +230,7 @@ pub fn run_case(id: &str, toks: &[&str]) -> String {
     let mut errs: Vec<String> = vec![];
     let mut live: Option<Live> = None;
     let mut out: Vec<String> = vec![];
-    for tok in &toks[3..] {
+    for tok in ops {
         if tok.is_empty() {
             continue;
         }
